@@ -291,7 +291,7 @@ _ADD = {
     'C17': (' Registration (Reg layer): created_anytime_tracks_latest.', ' Plus: two retry containers with late registration, returning table generations, routes sharing a cluster, registration racing an update.'),
     'C18': (' Registration (Reg layer): created_anytime_tracks_latest.', ' Plus: rejected listener responses between accepted ones, registration racing an update.'),
     'C19': (' dropped_keeps_clock: a name removed by a complete update keeps its idle clock (the cleaner still withdraws it); unsubscribed_update_ignored / evicted_stays_out: no update caches a name outside the interest set, so a response that crosses the unsubscription cannot bring an evicted entry back.', ' Plus: a world with 1 100 idle resources whose connection is stalled over the sweep (every withdrawal must reach the control plane).'),
-    'C20': (' History of Init calls: init_failures_all_reported, init_after_success, init_first_success_wins (fact initShape).', ' Plus: three Init calls on a partly repaired environment (child process), node identity on acknowledgement, rejection, re-subscription and changes on a second stream.'),
+    'C20': (' History of Init calls: init_failures_all_reported, init_after_success, init_first_success_wins (fact initShape); set_overlapping_one_winner: overlapping calls of SetXDSResourceManager, in any lock order, install one manager throughout.', ' Plus: 16 overlapping first calls of SetXDSResourceManager lined up at the holder\'s lock (verif hook VerifHoldManager, child processes): one manager for every caller and in the end; three Init calls on a partly repaired environment (child process), node identity on acknowledgement, rejection, re-subscription and changes on a second stream.'),
 }
 for _k, (_lt, _rule) in _ADD.items():
     PROPS[_k]['level_text'] = PROPS[_k]['level_text'] + _lt
